@@ -461,7 +461,7 @@ def o10(h, st):
 # O11 grouping partition (openfermion heuristic: bounded) -----------------------------------------------------------------
 
 @contract("C18", "O11.group_qwc.partition", targets=[(QG, "group_qwc")], level="B",
-          structures=lambda tier: [{"n": n, "k": k} for n in (2, 3, 4) for k in (1, 3, 6, 10)],
+          structures=lambda tier: [{"n": n, "k": k, "repeat": r} for n in (2, 3, 4) for k in (1, 3, 6, 10) for r in (1, 4)],
           native_samples=lambda st, rnd, tier: [{"seed": rnd.randint(0, 10 ** 6)} for _ in range(3 if tier == "quick" else 15)])
 def o11(h, st):
     """bounded: every term of the operator appears in exactly one group with its coefficient and is qubit-wise diagonal in the group key"""
@@ -474,7 +474,8 @@ def o11(h, st):
         w = "".join(rnd.choice("IXYZ") for _ in range(st["n"]))
         qop.terms[to_term(w)] = qop.terms.get(to_term(w), 0) + round(rnd.uniform(-1, 1), 3) + 0.001
     before = snapshot(dict(qop.terms))
-    groups = h.call(QG, "group_qwc", qop, seed)
+    # (repeat > 1: the cover is recomputed with fresh random seeds and the smallest one kept - whichever run wins, the result must be a partition)
+    groups = h.call(QG, "group_qwc", qop, seed, st.get("repeat", 1)) if st.get("repeat", 1) > 1 else h.call(QG, "group_qwc", qop, seed)
     h.check("operator unchanged", snapshot(dict(qop.terms)) == before)
     seen = {}
     for basis, sub in groups.items():
